@@ -1,3 +1,4 @@
+CONSTANT Deep = FALSE
 INIT Init
 NEXT Next
 INVARIANT RoundTrip
